@@ -23,7 +23,15 @@ Inductive c14case :=
 (* receiver alone, arbitrary bytes (legal non-canonical encodings and malformed ones): the Coq
    decoder decides acceptance and the decoded message *)
 | CRaw (is_event : bool) (hdr : str) (raw : str) (status : Z) (dispatched : bool) (now : Z)
-       (obs_m : list entry) (obs_e : event).
+       (obs_m : list entry) (obs_e : event)
+(* K messages in flight at once on one forwarder (events, and one flush split into several
+   requests by a dynamic header), possibly with scripted 503s so that retries overlap other
+   posts: what was given, the statuses other than 202 and the scripted 503s, and everything the
+   ingestion server dispatched.  Messages are independent: the dispatched multiset is the
+   multiset of the model's per-message results, each exactly once *)
+| CConc (exp_maps : list (list entry)) (exp_events : list event) (bad_statuses : list Z)
+        (obs_maps : list (list entry)) (obs_events : list event).
+
 
 Definition mk_nested {A} (l : list (str * list (str * A))) : gmap str (gmap str A) :=
   list_to_map (map (fun '(n, tm) => (n, list_to_map tm)) l).
@@ -75,6 +83,22 @@ Definition wire_event_ok (raw : str) (p : pb_event) (obs : event) : bool :=
   | None => false
   end.
 
+Fixpoint remove_first {A} (same : A -> A -> bool) (x : A) (l : list A) : option (list A) :=
+  match l with
+  | [] => None
+  | y :: r => if same x y then Some r
+              else match remove_first same x r with Some r' => Some (y :: r') | None => None end
+  end.
+Fixpoint multiset_eqb {A} (same : A -> A -> bool) (a b : list A) : bool :=
+  match a with
+  | [] => match b with [] => true | _ => false end
+  | x :: a' => match remove_first same x b with Some b' => multiset_eqb same a' b' | None => false end
+  end.
+(* given map vs dispatched map, timestamps set aside (each request has its own receive time) *)
+Definition conc_map_same (given obs : list entry) : bool :=
+  dump_matches (map (entry_retime 0) obs) (from_pb 0 (to_pb (map_of_entries given))).
+Definition conc_event_same (given obs : event) : bool := event_eqb obs (event_from_pb (event_to_pb given)).
+
 Definition check_case (c : c14case) : bool :=
   match c with
   | CMetrics compress ctype level inp hdr raw status now obs =>
@@ -111,13 +135,18 @@ Definition check_case (c : c14case) : bool :=
         | (st, Some m) => (status =? st) && dispatched && dump_matches obs_m m
         | (st, None) => (status =? st) && negb dispatched
         end
+  | CConc exp_maps exp_events bad obs_maps obs_events =>
+      match bad with [] => true | _ => false end
+      && multiset_eqb conc_map_same exp_maps obs_maps
+      && multiset_eqb conc_event_same exp_events obs_events
   end.
 
 Inductive explanation :=
 | XMetrics (cfg : option fwd_cfg) (hdr : str) (out : list entry)
 | XEvent (cfg : option fwd_cfg) (hdr : str) (out : event)
 | XConfig (cfg : option fwd_cfg)
-| XRaw (st : Z) (m : option (list entry)) (e : option event).
+| XRaw (st : Z) (m : option (list entry)) (e : option event)
+| XConc (maps : list (list entry)) (events : list event).
 
 Definition explain_case (c : c14case) : explanation :=
   match c with
@@ -133,4 +162,7 @@ Definition explain_case (c : c14case) : explanation :=
   | CRaw is_event hdr raw _ _ now _ _ =>
       if is_event then let r := event_handler (fun _ b => Some b) event_unmarshal hdr (Some raw) in XRaw (fst r) None (snd r)
       else let r := metric_handler (fun _ b => Some b) pb_unmarshal now hdr (Some raw) in XRaw (fst r) (option_map entries (snd r)) None
+  | CConc exp_maps exp_events _ _ _ =>
+      XConc (map (fun g => entries (from_pb 0 (to_pb (map_of_entries g)))) exp_maps)
+            (map (fun e => event_from_pb (event_to_pb e)) exp_events)
   end.
